@@ -22,6 +22,9 @@
 //    `MAP.entry(K).or_insert_with(` => `rc_cow::entry_or_insert_with(&mut MAP, K, `.
 //  * `Rc::ptr_eq`: "Returns true if the two Rcs point to the same allocation" — then they hold the
 //    same value.  Nothing is promised when it returns false.
+//  * `Rc::clone`: "This creates another pointer to the same allocation" — the clone holds the same value
+//    (Verus gives `rc.clone()` this meaning at direct calls; the axiom states it for `cloned`, the form in
+//    which vstd's `Option::clone` / `Vec::clone` specifications mention the element's clone).
 //  * `Option::or_else`: "Returns the option if it contains a value, otherwise calls f and returns
 //    the result."
 //  * `==` on `Rc<T>` compares the pointees (`impl PartialEq for Rc<T> { fn eq(a, b) { **a == **b } }`;
@@ -71,6 +74,9 @@ pub mod rc_cow {
         ensures
             o is Some ==> r == o,
             o is None ==> f.ensures((), r);
+
+    pub broadcast axiom fn axiom_rc_cloned<T>(a: Rc<T>, b: Rc<T>)
+        ensures #[trigger] cloned(a, b) ==> a == b;
 
     pub broadcast axiom fn axiom_rc_obeys_eq<T: PartialEq>()
         ensures #[trigger] <Rc<T> as PartialEqSpec>::obeys_eq_spec() == T::obeys_eq_spec();
